@@ -157,7 +157,7 @@ def make_struct_members(xml_elem, dynamic_array=False):
             size, size2 = (expr and expand_operators(expr) for expr in (size, size2))
             if size2:
                 def factor(expr):
-                    return expr if re.match(r"\w+$", str(expr)) else "({})".format(expr)
+                    return expr if re.match(r"\w+\Z", str(expr)) else "({})".format(expr)
                 size = "{}*{}".format(factor(size), factor(size2))
             if optional:
                 yield model.StructMember("has_" + xml_elem_name, "u32", docstring="implicit enabler for optional field")
